@@ -189,7 +189,7 @@ _reg(Tool("any", "agg", (1, 1),
 _reg(Tool("sum", "agg", (1, 1),
           lambda S, F, P, V: a.sum(S[0], *_positional_opt(V, "start")),
           lambda S, F, P, V: builtins.sum(S[0], *_positional_opt(V, "start")),
-          profiles=(I, N, "lists")))
+          profiles=(I, N, "lists", "inexact")))
 _reg(Tool("min", "agg", (1, 1),
           lambda S, F, P, V: a.min(S[0], **_kw(key=F.get("key", _ABSENT), default=_opt(V, "default"))),
           lambda S, F, P, V: builtins.min(S[0], **_kw(key=F.get("key", _ABSENT), default=_opt(V, "default"))),
